@@ -77,6 +77,9 @@ class History:
             try:
                 for step, op in enumerate(hist):
                     await self.apply(u, op, step)
+                    if self.check.probe_every_step and step < len(hist) - 1:
+                        # hand-out stability (C03): remember what every pair returned after every step
+                        await self.probes(u, f"after step {step} {op}")
                 # every prefix of an explored history is itself explored, so sweeping after the last step
                 # sweeps every reachable state once
                 where = f"after {hist[-1] if hist else 'start'}"
@@ -237,8 +240,10 @@ class History:
             return
         outcome, cancelled_caught = r[1], r[2]
         if open_children:
-            if outcome is None and how != "cancel":
-                u.fail("lifecycle", f"c{idx} was left while its children {open_children} were still open and no error was reported")
+            # "reported as an error, not ignored": whatever way the block ended, the caller must be told (RuntimeError)
+            if not isinstance(outcome, RuntimeError):
+                u.fail("lifecycle", f"c{idx} was left ({how}) while its children {open_children} were still open; the caller saw {outcome!r} "
+                                    f"instead of an error reporting that")
         elif getattr(m, "td_raises", False):
             pass
         elif how == "clean":
@@ -291,6 +296,7 @@ class CtxCheck:
     backends = ["asyncio (controlled loop, default schedule)"]
     aspects: set[str] = set()
     probe_apis: tuple = APIS
+    probe_every_step = False
     max_ctx = 3
 
     def depth(self, tier: str) -> int:
